@@ -112,6 +112,21 @@ def blocksOK : List Obs → Bool
   | .tua t w :: rest => noEarly (t + w) rest && blocksOK rest
   | _ :: rest => blocksOK rest
 
+/-- adaptive: the promise survives feedback that does not raise the reported rate (`r` = the rate in
+    force); it ends at the first record that reports a higher rate -/
+def noEarlyR (lim : Nat) : Nat → List Obs → Bool
+  | _, [] => true
+  | r, .acq t ok :: rest => (decide (lim ≤ t) || !ok) && noEarlyR lim r rest
+  | r, .tua _ _ :: rest => noEarlyR lim r rest
+  | r, .fb _ r' :: rest => if r' ≤ r then noEarlyR lim r' rest else true
+
+/-- adaptive form of `blocksOK`: `r` = the rate before the first record -/
+def blocksOKR : Nat → List Obs → Bool
+  | _, [] => true
+  | r, .tua t w :: rest => noEarlyR (t + w) r rest && blocksOKR r rest
+  | _, .fb _ r' :: rest => blocksOKR r' rest
+  | r, _ :: rest => blocksOKR r rest
+
 /-- a drain: keep waiting the returned duration; `ws` are the returned waits in order (the last one is
     the first zero, if any), `ok` the result of the acquire made when zero was returned.
     Holds when zero is reached after at most `k` positive waits and the acquire is then granted. -/
